@@ -30,6 +30,35 @@ open Sqfs Sqfs.Sort Sqfs.Pack
 
 def showInt (i : Int) : String := toString i
 
+/-- hex decoding without deep recursion (payloads of up to 1 MiB) -/
+def hexNib (c : UInt8) : Option UInt8 :=
+  if 48 ≤ c ∧ c ≤ 57 then some (c - 48)
+  else if 97 ≤ c ∧ c ≤ 102 then some (c - 87)
+  else if 65 ≤ c ∧ c ≤ 70 then some (c - 55)
+  else none
+
+def fromHexFast (s : String) : Option (List UInt8) :=
+  if s = "-" then some []
+  else
+    let b := s.toUTF8
+    if b.size % 2 ≠ 0 then none
+    else Id.run do
+      let mut out : Array UInt8 := Array.mkEmpty (b.size / 2)
+      let mut ok := true
+      for i in [0:b.size / 2] do
+        match hexNib (b.get! (2 * i)), hexNib (b.get! (2 * i + 1)) with
+        | some x, some y => out := out.push (x * 16 + y)
+        | _, _ => ok := false
+      return if ok then some out.toList else none
+
+def hexChar (n : UInt8) : UInt8 := if n < 10 then 48 + n else 87 + n
+
+def toHexFast (bs : List UInt8) : String :=
+  if bs.isEmpty then "-"
+  else
+    let arr := bs.foldl (fun (a : ByteArray) b => (a.push (hexChar (b / 16))).push (hexChar (b % 16))) (ByteArray.emptyWithCapacity (2 * bs.length))
+    String.fromUTF8! arr
+
 def gOf (d : Directives) : Nat := if d.doGlob then (if d.pathGlob then 2 else 1) else 0
 
 def mode? : String → Option Bool
@@ -41,7 +70,7 @@ def opDecode (terminate : Bool) (raw : List UInt8) : String :=
   match decodeLine terminate raw with
   | .error e => "err " ++ e.name
   | .ok none => "skip"
-  | .ok (some l) => s!"ok {showInt l.priority} {l.dir.flags} {gOf l.dir} {toHexTok l.pattern}"
+  | .ok (some l) => s!"ok {showInt l.priority} {l.dir.flags} {gOf l.dir} {toHexFast l.pattern}"
 
 def allSome : List (Option α) → Option (List α)
   | [] => some []
@@ -74,7 +103,7 @@ def opSort (terminate : Bool) (paths lines : List (List UInt8)) (bits : String) 
     | some tbl =>
       match sortFiles terminate (tableMatcher tbl) lines paths with
       | .error (e, i) => s!"err {e.name} {i}"
-      | .ok fs => "ok" ++ String.join (fs.map (fun f => s!" {toHexTok f.path}:{showInt f.priority}:{f.flags}"))
+      | .ok fs => "ok" ++ String.join (fs.map (fun f => s!" {toHexFast f.path}:{showInt f.priority}:{f.flags}"))
 
 structure St where
   B : Nat := 0
@@ -108,7 +137,7 @@ def showFile (r : FileResult) : String :=
   s!"{r.size}:{r.start}:{fr}:{r.sparse}:{b01 r.extended}:{b01 r.shared}:{showWords r.words}"
 
 def showOut (o : Out) : String :=
-  "blocks" ++ String.join (o.blocks.map (fun b => s!" {b01 b.raw}:{toHexTok b.data}"))
+  "blocks" ++ String.join (o.blocks.map (fun b => s!" {b01 b.raw}:{toHexFast b.data}"))
     ++ " frags" ++ String.join (o.frags.map (fun e => s!" {e.start}:{e.size}:{b01 e.raw}"))
     ++ " files" ++ String.join (o.files.map (fun r => " " ++ showFile r))
 
@@ -134,17 +163,17 @@ def flagsToNat (F : Flags) : Nat :=
 def step (s : St) (line : String) : St × String :=
   match words line with
   | ["decode", m, h] =>
-    match mode? m, fromHex h with
+    match mode? m, fromHexFast h with
     | some t, some raw => (s, opDecode t raw)
     | _, _ => (s, "bad-op")
   | "sort" :: m :: nf :: rest =>
     match mode? m, nf.toNat? with
     | some t, some nf =>
-      match allSome ((rest.take nf).map fromHex), (rest.drop nf) with
+      match allSome ((rest.take nf).map fromHexFast), (rest.drop nf) with
       | some paths, nl :: rest2 =>
         match nl.toNat? with
         | some nl =>
-          match allSome ((rest2.take nl).map fromHex), rest2.drop nl with
+          match allSome ((rest2.take nl).map fromHexFast), rest2.drop nl with
           | some lines, [bits] =>
             if paths.length = nf ∧ lines.length = nl then (s, opSort t paths lines bits) else (s, "bad-op")
           | _, _ => (s, "bad-op")
@@ -156,11 +185,11 @@ def step (s : St) (line : String) : St × String :=
     | some b, some base => ({ B := b, base := base }, "ok")
     | _, _ => (s, "bad-op")
   | ["cmp", i, o] =>
-    match fromHex i, fromHex o with
+    match fromHexFast i, fromHexFast o with
     | some i, some o => ({ s with table := (i, o) :: s.table }, "ok")
     | _, _ => (s, "bad-op")
   | ["file", fl, d] =>
-    match fl.toNat?, fromHex d with
+    match fl.toNat?, fromHexFast d with
     | some fl, some d => ({ s with files := s.files ++ [⟨Flags.ofNat fl, d⟩] }, "ok")
     | _, _ => (s, "bad-op")
   | ["pack-run", m] =>
@@ -186,7 +215,7 @@ def step (s : St) (line : String) : St × String :=
     | some b, some base => ({ s with B := b, base := base, mblocks := [], mfrags := [] }, "ok")
     | _, _ => (s, "bad-op")
   | ["mon-block", r, d] =>
-    match fromHex d with
+    match fromHexFast d with
     | some d => ({ s with mblocks := s.mblocks ++ [⟨r == "1", 0, d⟩] }, "ok")
     | none => (s, "bad-op")
   | ["mon-frag", st, sz, r] =>
@@ -198,7 +227,7 @@ def step (s : St) (line : String) : St × String :=
     | some sz, some st, some fo, some ws =>
       let frag := if fi = "-" then none else fi.toNat?.map (fun i => (i, fo))
       let o : Out := ⟨s.mblocks, s.mfrags, []⟩
-      (s, toHexTok (readFile s.params o ⟨sz, ws, st, frag, 0, false⟩))
+      (s, toHexFast (readFile s.params o ⟨sz, ws, st, frag, 0, false⟩))
     | _, _, _, _ => (s, "bad-op")
   | _ => (s, "bad-op")
 
